@@ -106,3 +106,10 @@ pub proof fn lemma_wf_own_ext(mem: MemMap, mco: McoMap, own0: OwnMap, own1: OwnM
         else { assert(item_ext(own0, o, k, own1[o].members@[k], id)); }
     }
 }
+/// the same as a broadcast fact (instantiated wherever both hypotheses occur): used at the eight exits of add_member_to_owner
+pub broadcast proof fn lemma_wf_own_ext_b(mem: MemMap, mco: McoMap, own0: OwnMap, own1: OwnMap, inf: InfMoMap, o: LuaMemberOwner, id: LuaMemberId)
+    requires #[trigger] member_wf(mem, mco, own0, inf), #[trigger] own_ext(own0, own1, o, id), inf_has(inf, id.file_id, MemberOrOwner::Owner(o)),
+    ensures member_wf(mem, mco, own1, inf),
+{
+    lemma_wf_own_ext(mem, mco, own0, own1, inf, o, id);
+}
